@@ -9,7 +9,7 @@ from harness.common import struct_hash
 from harness.ns import QNAMES
 
 ID = "C08"
-LEAN_MODULES = ["Pypika.Props.C08", "Pypika.Props.Builder", "Pypika.BuilderFrame", "Pypika.BuilderCommute"]
+LEAN_MODULES = ["Pypika.Props.C08", "Pypika.Props.Builder", "Pypika.BuilderFrame", "Pypika.BuilderCommute", "Pypika.BuilderIndep"]
 TRACE_BUILDER = True   # builder calls made by this check are also run through Pypika.B.step (harness/trace.py)
 THEOREMS = ["Pypika.C08.step_congr", "Pypika.C08.swap", "Pypika.C08.bubble", "Pypika.C08.interleavings_agree",
             "Pypika.C08.accumulate", "Pypika.C08.nsBase_mono", "Pypika.C08.equiv_cases",
@@ -18,7 +18,8 @@ THEOREMS = ["Pypika.C08.step_congr", "Pypika.C08.swap", "Pypika.C08.bubble", "Py
             "Pypika.B.step_frame", "Pypika.B.run_frame", "Pypika.B.run_keeps_wheres", "Pypika.B.run_keeps_selects", "Pypika.B.run_keeps_from",
             # locality + frame => independent calls commute, for all arguments and states (BuilderLocal*.lean, BuilderCommute.lean)
             "Pypika.B.step_local", "Pypika.B.calls_commute", "Pypika.B.calls_commute_iff",
-            "Pypika.B.run_swap", "Pypika.B.run_traceEq", "Pypika.B.not_indep_of_common_write"]
+            "Pypika.B.run_swap", "Pypika.B.run_traceEq", "Pypika.B.interleavings_render_same", "Pypika.B.not_indep_of_common_write",
+            "Pypika.B.clause_kinds_independent", "Pypika.B.swap_of_kinds"]
 AGREE = ["Pypika.Agree.writes_agree", "Pypika.Agree.reads_agree", "Pypika.Agree.methods_covered"]
 TRUSTED = ["the slot state machine (Build.lean) abstracts call payloads to identifiers; that each real builder method writes "
            "exactly the slot the model says is checked by running every generated call sequence through both and comparing "
